@@ -111,20 +111,40 @@ def bounds_format(case):
     return case.get('bfmt') or '%Y/%m/%d'
 
 
+def kw(rng, word):
+    """a keyword in the letter case the lexer has to fold (to_lower): mostly as usually written"""
+    r = rng.random()
+    return word if r < 0.8 else word.capitalize() if r < 0.9 else word.upper()
+
+
 def expr_text(rng, case):
+    """the expression text; case['dates'] = the days its date words name, in the order written (the model's lexer
+    and parser read the TEXT, the day a date word names is handed over with it).  The clauses - duration, from, to -
+    come in any order, the keywords in any letter case."""
     s = dur_text(rng, case['q'], case['n'], case.get('form'))
+    if case.get('form') is None and rng.random() < 0.2:
+        s = ' '.join(w if w.isdigit() else kw(rng, w) for w in s.split())
     fmt = case.get('bfmt')
     if fmt is None:
         # the built-in readers; with --input-date-format the separators are no longer normalised, both still read
         fmt = rng.choice(['%Y/%m/%d', '%Y/%m/%d', '%Y-%m-%d'])
     if case['from'] is not None and case['to'] == case['from'] + 1 and rng.random() < 0.7:
         # a single day: `in D` / a bare date is the range [D, D + 1 day)
-        return s + rng.choice([' in ', ' ']) + nd(case['from']).strftime(fmt)
+        case['dates'] = [case['from']]
+        clause = rng.choice([kw(rng, 'in') + ' ', '']) + nd(case['from']).strftime(fmt)
+        return s + ' ' + clause if rng.random() < 0.7 else clause + ' ' + s
+    clauses = [('d', s)]
     if case['from'] is not None:
-        s += ' %s %s' % (rng.choice(['from', 'since']), nd(case['from']).strftime(fmt))
+        clauses.append((case['from'], '%s %s' % (kw(rng, rng.choice(['from', 'since'])), nd(case['from']).strftime(fmt))))
     if case['to'] is not None:
-        s += ' %s %s' % (rng.choice(['to', 'until']), nd(case['to']).strftime(fmt))
-    return s
+        clauses.append((case['to'], '%s %s' % (kw(rng, rng.choice(['to', 'until'])), nd(case['to']).strftime(fmt))))
+    if rng.random() < 0.35:
+        rng.shuffle(clauses)
+        case['shuffled'] = True
+    else:
+        case['shuffled'] = False
+    case['dates'] = [k for k, _ in clauses if k != 'd']
+    return ' '.join(t for _, t in clauses)
 
 
 def set_format(rng, case, fmt):
@@ -348,7 +368,9 @@ def run_period(case):
     finish = re.search(r'^\s*finish: (\S+)$', m.group(1), re.M)
     dur = re.search(r'^duration: (.*)$', m.group(1), re.M)
     samples = re.findall(r'^\s*\d+: (\S+) -- (\S+)$', m.group(2), re.M)
-    return ('OK', start.group(1) if start else '-', finish.group(1) if finish else '-', dur.group(1) if dur else '-', samples)
+    t = re.search(r'--- Period expression tokens ---\n(.*?)\n\n--- Before stabilization ---', text, re.S)
+    toks = [l.split(':')[0] for l in t.group(1).split('\n')] if t else ['?']
+    return ('OK', start.group(1) if start else '-', finish.group(1) if finish else '-', dur.group(1) if dur else '-', samples, toks)
 
 
 # ---- model ---------------------------------------------------------------------------------------
@@ -358,8 +380,9 @@ def model_head(kind, cid, case):
 
 
 def model_tail(case):
-    """the format the bounds are written in (as bytes) and the current year"""
-    return [bounds_format(case).encode(), NOW.year]
+    """the format the bounds are written in (as bytes), the current year, the expression text (as bytes) and the
+    days its date words name in the order written"""
+    return [bounds_format(case).encode(), NOW.year, case['expr'].encode(), list(case['dates'])]
 
 
 def model_reg_line(cid, case, posts):
@@ -485,10 +508,13 @@ def century_fix(samples):
 
 # ---- the run -------------------------------------------------------------------------------------
 def form_of(case):
-    w = case['expr'].split()[0].lower()
-    if w == 'every':
-        return 'every-N-units' if case['expr'].split()[1].isdigit() else 'every-unit'
-    return w
+    ws = [w.lower() for w in case['expr'].split()]
+    for i, w in enumerate(ws):
+        if w == 'every':
+            return 'every-N-units' if ws[i + 1].isdigit() else 'every-unit'
+        if w in NAMED:
+            return w
+    return '?'
 
 
 def canon_rows(rows, impl):
@@ -534,6 +560,8 @@ def check_reg(res, case, journal, impl, plain, model):
     res.count('reg:input-date-format=%s' % (case.get('fmt') or 'none'))
     if case.get('fmt') and case.get('bfmt') and (case['from'] is not None or case['to'] is not None):
         res.count('reg:bounds-written-in-input-date-format')
+    if case.get('shuffled') and (case['from'] is not None or case['to'] is not None):
+        res.count('reg:clauses-not-in-the-usual-order')
     if case['align']:
         res.count('reg:align')
     if case['empty']:
@@ -622,7 +650,15 @@ def check_period(res, case, impl, model_line):
         if not (body == 'ERR' and impl[0] != 'OK'):
             res.disagreements.append(dict(name='C13/period-cmd', case=full, impl=str(impl)[:300], model=body[:300]))
         return
-    m = re.fullmatch(r'start=(\S+) finish=(\S+) samples=(\S*)', body)
+    m = re.fullmatch(r'start=(\S+) finish=(\S+) samples=(\S*) toks=(\S*)', body)
+    # the lexer: the token kinds ledger lists against the model's (Model/PeriodExpr.v tokens_of_text)
+    mtoks = m.group(4).split(',') + ['END_REACHED']
+    if impl[5] != mtoks:
+        res.disagreements.append(dict(name='C13/period-tokens', case=full, impl=str(impl[5])[:300], model=str(mtoks)[:300]))
+    if case.get('shuffled') and (case['from'] is not None or case['to'] is not None):
+        res.count('period:clauses-not-in-the-usual-order')
+    if case['expr'] != case['expr'].lower():
+        res.count('period:keyword-not-lower-case')
     ms = '-' if m.group(1) == '-' else short(nd(int(m.group(1))))
     mf = '-' if m.group(2) == '-' else short(nd(int(m.group(2))))
     msamp = []
@@ -714,6 +750,47 @@ def named_word_cases(rng):
     return out
 
 
+def rejected_cases(rng):
+    """expressions the parser has to REFUSE (the theorems every_zero_rejected, expression_read_clause_by_clause say
+    so for the model): a zero length, a unit of the wrong number, a second from / to / in, a bound without its date,
+    a word that is no keyword, an integer the lexer's unsigned short cannot hold.  [(text, days of its date words)]"""
+    out = []
+    a, b = sorted(dn(boundary_date(rng, 2019, 2024)) for _ in range(2))
+    b = b + 1 if a == b else b
+    da, db = nd(a).strftime('%Y/%m/%d'), nd(b).strftime('%Y/%m/%d')
+    w = rng.choice(list(NAMED))
+    for q in 'dwmqy':
+        out.append(('%s 0 %s' % (kw(rng, 'every'), QNAME[q]), []))
+        out.append(('every %s' % QNAME[q], []))                                   # the plural needs its integer
+        out.append(('every %d %s' % (rng.randrange(1, 13), QSING[q]), []))         # the singular takes none
+    out += [('every', []), ('every %d' % rng.randrange(1, 13), []), ('every every 2 days', []),
+            ('every 65536 days', []), ('every %d weeks' % rng.randrange(65536, 100000), []),
+            ('%s from %s since %s' % (w, da, db), [a, b]), ('from %s %s from %s' % (da, w, db), [a, b]),
+            ('%s to %s until %s' % (w, da, db), [a, b]), ('until %s to %s %s' % (da, db, w), [a, b]),
+            ('%s in %s in %s' % (w, da, db), [a, b]), ('%s from' % w, []), ('%s to' % w, []), ('%s in' % w, []),
+            ('%s from %s' % (w, w), []), ('from to %s %s' % (da, w), [a]),
+            ('fortnightly', []), ('%sx' % w, []), ('%s2' % w, []), ('semi%s' % w, []), ('every 2 fortnights', []),
+            ('%s frmo %s' % (w, da), [a])]
+    return out
+
+
+def check_rejected(res, text, dates, impl, model_line):
+    res.evaluations += 1
+    res.traces += 1
+    res.count('period:rejected-expression')
+    body = model_line.split(' ', 1)[1]
+    if impl[0] == 'OK' or body != 'ERR':
+        res.disagreements.append(dict(name='C13/period-rejects', case=dict(expr=text, dates=dates),
+                                      impl='accepted: ' + str(impl[1:5])[:300] if impl[0] == 'OK' else 'rejected: ' + str(impl[1:])[:200],
+                                      model=body[:300]))
+    elif failure_class(impl) not in ('period-syntax', 'error'):
+        # a refusal is a message, not a crash or a hang
+        res.violations.append(dict(key='period:rejected-expression:' + failure_class(impl), desc='period %s: %s' % (text, str(impl[1:])[:200]),
+                                   case=dict(expr=text), observed=str(impl)[:300], required='an error message'))
+    else:
+        res.nontrivial.add('rejected ' + text)
+
+
 def cases_for(ctx, rng, n_reg, n_period, exhaustive):
     regs, periods = named_word_cases(rng), named_word_cases(rng)
     combos = [(q, n) for q in 'dwmqy' for n in range(1, 13)]
@@ -788,6 +865,8 @@ def run(ctx, n_override=None):
         plain_vals = list(ex.map(lambda k: run_plain({'from': k[1], 'to': k[2], 'fmt': journals_by_idx[k[0]]['fmt']},
                                                      journals_by_idx[k[0]]['path']), plain_keys))
         impl_period = list(ex.map(run_period, periods))
+        rejected = rejected_cases(rng)
+        impl_rejected = list(ex.map(lambda td: run_period(dict(expr=td[0])), rejected))
     lib.log('C13: implementation runs done %.0fs' % (time.time() - t_run))
     plain = dict(zip(plain_keys, plain_vals))
     lines = []
@@ -795,12 +874,16 @@ def run(ctx, n_override=None):
         lines.append(model_reg_line('r%d' % i, c, jn['posts']))
     for i, c in enumerate(periods):
         lines.append(model_period_line('p%d' % i, c))
+    for i, (text, dates) in enumerate(rejected):
+        lines.append(lib.sx(['period', 'x%d' % i, 'd', 1, '-', '-', dn(NOW), b'%Y/%m/%d', NOW.year, text.encode(), list(dates)]))
     out = lib.run_model('C13', lines)
     lib.log('C13: model done %.0fs' % (time.time() - t_run))
     for i, (c, jn) in enumerate(jobs):
         check_reg(res, c, jn, impl_reg[i], plain[(jn['idx'], c['from'], c['to'])], parse_model_rows(out[i]))
     for i, c in enumerate(periods):
         check_period(res, c, impl_period[i], out[len(jobs) + i])
+    for i, (text, dates) in enumerate(rejected):
+        check_rejected(res, text, dates, impl_rejected[i], out[len(jobs) + len(periods) + i])
     lib.log('C13: checks done %.0fs' % (time.time() - t_run))
     calendar_spot(ctx, rng, res)
     return res
